@@ -321,6 +321,17 @@ def case_array_io(col, p):
             if not (np.isnan(back3.flat[0]) and back3.shape == shape and
                     all(_same_float(float(back3.flat[i]), _expected_value(float(data.flat[i]), prec)) for i in range(1, data.size))):
                 col.violation('C14:array_to_file:masked_as_nan', info, {'got': back3})
+            # a Spectrum / masked array in which nothing is masked through the generic writer: plain values
+            for kind_u, arr_u in (('Spectrum', dadi.Spectrum(data.copy(), mask_corners=False)), ('MaskedArray', np.ma.masked_array(data.copy(), mask=np.zeros(shape, bool))),
+                                  ('MaskedArray_nomask', np.ma.masked_array(data.copy()))):
+                try:
+                    Numerics.array_to_file(arr_u, fn, precision=prec)
+                    back4 = Numerics.array_from_file(fn)
+                    col.tick(transitions=2)
+                    if not (back4.shape == shape and all(_same_float(float(back4.flat[i]), _expected_value(float(data.flat[i]), prec)) for i in range(data.size))):
+                        col.violation('C14:array_to_file:unmasked_%s' % kind_u, info, {'got': back4})
+                except Exception as e:
+                    col.violation('C14:array_to_file:unmasked_%s:raises' % kind_u, info, '%s: %s' % (type(e).__name__, e))
         # several arrays through ONE open file object (both functions document "file name or open file object"): every ordered pair and the
         # triple of (this shape, a vector, a matrix), written one after the other and read back by successive calls on one handle
         others = [(3,), (2, 2)]
